@@ -143,6 +143,8 @@ pub fn replay(w: &World, beh: &Value) -> Value {
         c
     };
     let viol = |kind: &str, d: String| json!({"id": beh["id"], "status": "violation", "kind": kind, "detail": d});
+    // collective key material recorded as RLWE samples under the SUM of the secret keys (judged by TLC: Keys.tla)
+    let mut key_events: Vec<Value> = vec![];
     match proto {
         "pk" => {
             let mut protos: Vec<Option<_>> = parts.iter_mut().map(|p| Some(p.generate_public_key())).collect();
@@ -157,6 +159,10 @@ pub fn replay(w: &World, beh: &Value) -> Value {
                 }
             }
             if let Some(pk) = done.first() {
+                let kw = crate::keys::KeyWorld::new(&w.ctx);
+                let mult = if w.ps.scheme == SchemeType::BGV { w.ps.t } else { 1 };
+                key_events.push(json!({"ev": "key_rlwe", "what": "collective_public_key", "detail": {"parties": n}, "n": kw.n, "q": kw.q, "bound": 21 * n, "mult": mult,
+                                       "comps": [kw.error_of(pk.as_ciphertext(), &kw.secret(&sk_sum), &kw.zero())]}));
                 let r = guarded(|| Encryptor::new(w.ctx.clone()).set_public_key((*pk).clone()).encrypt_new(&plain));
                 match r {
                     Ok(c) => {
@@ -403,7 +409,7 @@ pub fn replay(w: &World, beh: &Value) -> Value {
         }
         _ => return json!({"id": beh["id"], "status": "tool_error", "detail": "unknown protocol"}),
     }
-    json!({"id": beh["id"], "status": "ok"})
+    json!({"id": beh["id"], "status": "ok", "key_events": key_events})
 }
 
 pub fn main(args: &[String]) {
